@@ -46,7 +46,9 @@ def case(draw, tier):
          "exc": draw(st.sampled_from(sorted(EXC))), "errorvalue": draw(st.sampled_from([None, "ERR", 0])),
          "exc_cells": draw(st.booleans()),
          # rowmap/rowmapmany: the mapper hands back a lazy iterable (generator) that fails while petl builds the row from it
-         "lazy": draw(st.booleans())}
+         "lazy": draw(st.booleans()),
+         # fieldmap: an output field is added to the caller's mappings object after the view was first used
+         "late_mapping": draw(st.integers(0, 3)) == 0}
     cells = [(r, f) for r in range(n) for f in range(nf)]
     if op in ("convert", "convert-multi", "convertall", "fieldmap"):
         c["failing"] = [list(x) for x in draw(st.lists(st.sampled_from(cells), unique=True, max_size=len(cells)))] if cells else []
@@ -123,8 +125,18 @@ def check(case, ctx):
                     m["carried"] = "xc"
                     tbl = [hdr + ["xc"]] + [row + [carried.get(i, "plain")] for i, row in enumerate(tbl[1:])]
                 view = etl.fieldmap(tbl, m, errorvalue=errorvalue, **kw)
+                if case.get("late_mapping"):
+                    # the view is used once, then the caller adds an output
+                    # field to the mappings object the view was given: a field that never fails
+                    try:
+                        for _ in view:
+                            pass
+                    except Exception:
+                        pass   # (policy True and a failing row: the pass ends there)
+                    m["late"] = (hdr[0], lambda v: ("late", v))
+                    ctx.label("late-mapping")
             outfields = fields if op == "fieldmap" else list(range(nf))
-            exp_hdr = tuple(hdr[f] for f in outfields) + (("carried",) if carried else ())
+            exp_hdr = tuple(hdr[f] for f in outfields) + (("carried",) if carried else ()) + (("late",) if (op == "fieldmap" and case.get("late_mapping")) else ())
             exp_rows = []   # list of ('row', cells) or ('raise', token)
             for r in range(n):
                 cells = []
@@ -145,6 +157,8 @@ def check(case, ctx):
                     break
                 if carried:
                     cells.append(("SAME", carried.get(r, "plain")))
+                if op == "fieldmap" and case.get("late_mapping"):
+                    cells.append(("VAL", ("late", _tok(r, 0))))
                 exp_rows.append(("row", cells))
         elif op == "rowmap":
             failing = set(case["failing"])
